@@ -693,3 +693,25 @@ def protocol_dispatch_by_name(ck, w, rid):
     else:
         ck.ok(o, "%d dispatch site(s)" % n_disp, instances=n_disp)
 
+
+
+FMT_THROUGH = [r"^alloc::fmt::format$|^std::fmt::format$", r"fmt::Arguments::<'a>::new", r"fmt::rt::Argument::<'_>::new_display$", r"^std::hint::must_use$",
+               r"^blockdir::subdir_relpath$", r"ToString>?::to_string$", r"^blockdir::block_relpath$", r"String::as_str$", r"Deref>?::deref$"]
+
+
+def block_path_sites(w, body):
+    """Places in `body` where the relative path of a block file is formed: a call of blockdir::block_relpath, or (when a helper
+    between the two was dissolved) the same `{subdir_relpath(hex)}/{hex}` format written in place. Returns [(site event, origins of the hash)]."""
+    from cv import fmtshape
+    lib = w.lib
+    out = []
+    for e in body.events:
+        if e.bb in body.live and e.name == "blockdir::block_relpath" and e.callee != rules.POLL:
+            out.append((e, flow.origins_x(lib, body, e.args[0], through_all=FMT_THROUGH)))
+    for e, pieces, vals in fmtshape.format_sites(body):
+        shape = [p[0] for p in pieces]
+        if shape == ["arg", "lit", "arg"] and pieces[1][1] == "/" and len(vals) == 2 and vals[0] and vals[1]:
+            o0 = flow.origins_x(lib, body, vals[0])
+            if "blockdir::subdir_relpath" in flow.origin_calls(o0):
+                out.append((e, flow.origins_x(lib, body, vals[1], through_all=FMT_THROUGH)))
+    return out
